@@ -19,7 +19,8 @@ CACHE = os.path.join(ROOT, ".cache")
 LEAN = os.path.join(ROOT, "lean")
 HARNESS_SRC = os.path.join(ROOT, "harness")
 REPLAYS = os.path.join(ROOT, "replays")
-EVIDENCE = os.path.join(ROOT, "evidence")
+# evidence/ holds what was observed on /repo itself; a run against another tree (VERIF_REPO, used for the seeded changes) writes elsewhere
+EVIDENCE = os.path.join(ROOT, "evidence") if "VERIF_REPO" not in os.environ else os.path.join(CACHE, "evidence-other-tree")
 
 ALLOWED_AXIOMS = {"propext", "Classical.choice", "Quot.sound"}
 
